@@ -372,6 +372,10 @@ func (b *Broker) handleConn(conn net.Conn) {
 	err = connack.Write(conn)
 	if err != nil {
 		logger.SpanErrorf(nil, "send connack to client %s failed: %s", connect.ClientIdentifier, err)
+		// The client is registered already: tear it down as the read loop
+		// would, or its slot of maxAllowedConnection is never given back.
+		client.closeAndDelSession()
+		b.removeClient(cid)
 		return
 	}
 
